@@ -72,10 +72,19 @@ def doc_resolver(src, path):
 
     def go():
         v = src
-        for k in path:
+        deref = None
+        keys = path
+        if "->" in path:
+            i = path.index("->")
+            keys, deref = path[:i], path[i + 1]
+        for k in keys:
             v = v[k]
         if isinstance(v, Identifier):
             v = v.value
+        if deref is not None:
+            v = v[deref]
+            if isinstance(v, Identifier):
+                v = v.value
         return v
     return go
 
@@ -100,6 +109,13 @@ def call_resolver(src, path):
             v = v.value
         return v
     return go
+
+
+def _binding_at(prog, path):
+    cur = prog.root
+    for k in path[:-1]:
+        cur = cur.bindings[k]
+    return cur.bindings[path[-1]]
 
 
 def classify(prog, path, exp, res, all_ids, leg):
@@ -341,6 +357,41 @@ def run_history(spec, res):
                 q = rng.choice(qs)
                 B.bump(obs["history_ops"], "resolve")
                 _judge(res, obs, nontriv, prog, q, "history", doc_resolver, live, ids, codes, f"step {step}")
+            elif k < 0.82 and len(pool) >= 2:
+                # move: an identifier taken (and resolved) from document A is assigned into the root
+                # set of document B, over an existing key or as a new one; A is discarded; the
+                # name must now resolve by B's scoping (or fail), never by A's
+                ia, ib = rng.sample(range(len(pool)), 2)
+                prog_a, live_a, _ids_a = pool[ia]
+                prog_b, live_b, ids_b = pool[ib]
+                qa = [q for q in S.queries(prog_a) if "->" not in q and isinstance(_binding_at(prog_a, q), S.Ref)]
+                if not qa:
+                    continue
+                q = rng.choice(qa)
+                try:
+                    ident = live_a
+                    for kk in q:
+                        ident = ident[kk]
+                    try:
+                        ident.value
+                    except Exception:  # noqa: BLE001
+                        pass
+                    existing = [kk for kk, vv in prog_b.root.bindings.items() if isinstance(vv, (int, S.Ref))]
+                    kb = rng.choice(existing) if existing and rng.random() < 0.6 else "moved" + str(step)
+                    live_b[kb] = ident
+                except Exception:  # noqa: BLE001 - the mapping API is C14's subject
+                    continue
+                prog_b.root.bindings[kb] = S.Ref(_binding_at(prog_a, q).name)
+                prog_b.text = S.render(prog_b)
+                B.bump(obs["history_ops"], "move")
+                pool.pop(ia)
+                if ia < ib:
+                    ib -= 1
+                if rng.random() < 0.5:
+                    gc.collect()
+                ids_b2 = frozenset(int(x) for x in ID_RE.findall(prog_b.text))
+                pool[ib] = (prog_b, live_b, ids_b2)
+                _judge(res, obs, nontriv, prog_b, [kb], "history", doc_resolver, live_b, ids_b2, codes, f"moved at step {step}")
             elif k < 0.9:
                 idx = rng.randrange(len(pool))
                 pool.pop(idx)
